@@ -6,6 +6,7 @@ class Reader:
     '''Rimu line oriented string reader.'''
     lines: List[str]
     pos: int    # Line index of current line.
+    escaped: int    # Line index of the last line whose escaping backslash was dropped.
 
     def __init__(self, text: str):
         # Used internally by spans package.
@@ -19,6 +20,7 @@ class Reader:
         # Split is broken on IE8 e.g. 'X\n\nX'.split(/\n/g).length) returns 2 but should return 3.
         self.lines = re.split(r'\r\n|\r|\n', text)
         self.pos = 0
+        self.escaped = -1
 
     @property
     def cursor(self) -> str:
@@ -29,6 +31,11 @@ class Reader:
     def cursor(self, value: str) -> None:
         assert not self.eof()
         self.lines[self.pos] = value
+
+    def unescape(self) -> None:
+        '''Drop the escaping backslash from the current line, the line is now paragraph text.'''
+        self.cursor = self.cursor[1:]
+        self.escaped = self.pos
 
     def eof(self) -> bool:
         '''Return true if the cursor has advanced over all input self.lines.'''
